@@ -231,6 +231,96 @@ func c11TraceNilDomain(req kmsg.Request, trace bool, ids map[[16]byte]string, st
 	return hit
 }
 
+const (
+	c11FindingPartitionCount = "C11-createtopics-partition-count-oom"
+	c11FindingAutoCreateIdx  = "C11-autocreate-partition-index-oom"
+	c11HugeCount             = 100000
+)
+
+// c11PartitionCountDomain: CreateTopics NumPartitions / CreatePartitions Count far beyond any
+// real topic; the store allocates one entry per partition without an upper bound (listed
+// finding). With steer the count becomes 3.
+func c11PartitionCountDomain(req kmsg.Request, steer bool) bool {
+	hit := false
+	switch r := req.(type) {
+	case *kmsg.CreateTopicsRequest:
+		for i := range r.Topics {
+			if r.Topics[i].NumPartitions > c11HugeCount {
+				hit = true
+				if steer {
+					r.Topics[i].NumPartitions = 3
+				}
+			}
+		}
+	case *kmsg.CreatePartitionsRequest:
+		for i := range r.Topics {
+			if r.Topics[i].Count > c11HugeCount {
+				hit = true
+				if steer {
+					r.Topics[i].Count = 3
+				}
+			}
+		}
+	}
+	return hit
+}
+
+// c11AutoCreateIndexDomain: Produce / Fetch / ListOffsets(ts=-2) naming a topic that does NOT
+// exist (valid name, auto-create on) with a huge partition index: ensureTopic creates the
+// topic with index+1 partitions (listed finding). With steer the index becomes 0. Entries are
+// walked in request order; a topic auto-created by an earlier entry exists afterwards.
+func c11AutoCreateIndexDomain(req kmsg.Request, counts map[string]int32, ids map[[16]byte]string, steer bool) bool {
+	hit := false
+	live := map[string]bool{}
+	for k := range counts {
+		live[k] = true
+	}
+	visit := func(topic string, part *int32) {
+		if topic == "" || !metadata.ValidTopicName(topic) {
+			return
+		}
+		if !live[topic] && *part > c11HugeCount && *part < 1<<31-1 {
+			hit = true
+			if steer {
+				*part = 0
+			}
+		}
+		if *part >= 0 {
+			live[topic] = true
+		}
+	}
+	switch r := req.(type) {
+	case *kmsg.ProduceRequest:
+		for i := range r.Topics {
+			for j := range r.Topics[i].Partitions {
+				visit(r.Topics[i].Topic, &r.Topics[i].Partitions[j].Partition)
+			}
+		}
+	case *kmsg.FetchRequest:
+		for i := range r.Topics {
+			name := r.Topics[i].Topic
+			if name == "" && r.Topics[i].TopicID != ([16]byte{}) {
+				var ok bool
+				if name, ok = ids[r.Topics[i].TopicID]; !ok {
+					continue
+				}
+			}
+			for j := range r.Topics[i].Partitions {
+				visit(name, &r.Topics[i].Partitions[j].Partition)
+			}
+		}
+	case *kmsg.ListOffsetsRequest:
+		for i := range r.Topics {
+			for j := range r.Topics[i].Partitions {
+				if r.Topics[i].Partitions[j].Timestamp == -2 {
+					visit(r.Topics[i].Topic, &r.Topics[i].Partitions[j].Partition)
+				}
+			}
+		}
+	}
+	return hit
+}
+
 type c11Result struct {
 	err      error
 	panicked any
@@ -289,7 +379,7 @@ func c11Metadata() metadata.ClusterMetadata {
 
 func c11Env() *vfc10gen.Env {
 	return &vfc10gen.Env{
-		Bounded: true, HostileGroupMetadata: true, HostileCounts: true,
+		Bounded: true, HostileGroupMetadata: true, HostileCounts: true, HostilePartitionIndex: true,
 		Topics:  []string{"orders", "payments", "orders", "no-such-topic", "fresh-topic"},
 		IDs:     [][16]byte{metadata.TopicIDForName("orders"), metadata.TopicIDForName("payments")},
 		Groups:  []string{"g1", "g2"},
@@ -307,28 +397,25 @@ func TestVF_C11_Broker(t *testing.T) {
 	}
 	st.Note("advertised_pairs", len(tb.Pairs))
 
-	addr, err := vfc11kit.PickPort()
-	if err != nil {
-		fmt.Println("VF-INCONCLUSIVE: cannot reserve a loopback port:", err)
-		t.Fatalf("port: %v", err)
-	}
 	sw := &c11Switch{res: map[int32]c11Result{}}
-	srv := &broker.Server{Addr: addr, Handler: sw}
 	ctx, cancel := context.WithCancel(context.Background())
-	done := make(chan error, 1)
-	go func() { done <- srv.ListenAndServe(ctx) }()
-	defer func() {
-		cancel()
-		select {
-		case <-done:
-		case <-time.After(5 * time.Second):
-		}
-	}()
-	if c, err := vfc11kit.DialRetry(addr); err != nil {
-		fmt.Println("VF-INCONCLUSIVE: broker server did not come up on", addr, err)
-		t.Fatalf("dial: %v", err)
-	} else {
-		_ = c.Close()
+	defer cancel()
+	startBroker := func(ccf broker.ConnContextFunc) (string, error) {
+		return vfc11kit.StartServer(func(addr string) <-chan error {
+			srv := &broker.Server{Addr: addr, Handler: sw, ConnContextFunc: ccf}
+			errc := make(chan error, 1)
+			go func() {
+				if err := srv.ListenAndServe(ctx); err != nil {
+					errc <- err
+				}
+			}()
+			return errc
+		})
+	}
+	addr, err := startBroker(nil)
+	if err != nil {
+		fmt.Println("VF-INCONCLUSIVE: broker server did not come up:", err)
+		t.Fatalf("start: %v", err)
 	}
 	// the same handler behind a listener with PROXY protocol on (cmd/broker's own wiring)
 	_ = os.Setenv("KAFSCALE_PROXY_PROTOCOL", "true")
@@ -337,18 +424,10 @@ func TestVF_C11_Broker(t *testing.T) {
 	if ccf == nil {
 		t.Fatalf("HARNESS: buildConnContextFunc returned nil with KAFSCALE_PROXY_PROTOCOL=true")
 	}
-	paddr, err := vfc11kit.PickPort()
+	paddr, err := startBroker(ccf)
 	if err != nil {
-		fmt.Println("VF-INCONCLUSIVE: cannot reserve a loopback port:", err)
-		t.Fatalf("port: %v", err)
-	}
-	psrv := &broker.Server{Addr: paddr, Handler: sw, ConnContextFunc: ccf}
-	go func() { _ = psrv.ListenAndServe(ctx) }()
-	if c, err := vfc11kit.DialRetry(paddr); err != nil {
-		fmt.Println("VF-INCONCLUSIVE: PROXY-protocol listener did not come up on", paddr, err)
-		t.Fatalf("dial: %v", err)
-	} else {
-		_ = c.Close()
+		fmt.Println("VF-INCONCLUSIVE: PROXY-protocol listener did not come up:", err)
+		t.Fatalf("start: %v", err)
 	}
 	brokerInfo := protocol.MetadataBroker{NodeID: 1, Host: "127.0.0.1", Port: 19092}
 	env := c11Env()
@@ -356,6 +435,8 @@ func TestVF_C11_Broker(t *testing.T) {
 	knownMemberID := vfkit.Known(c11FindingMemberID)
 	knownCount := vfkit.Known(c11FindingListOffsetsCount)
 	knownTrace := vfkit.Known(c11FindingTraceNil)
+	knownPartCount := vfkit.Known(c11FindingPartitionCount)
+	knownAutoIdx := vfkit.Known(c11FindingAutoCreateIdx)
 	inconclusive := ""
 	defer func() {
 		if inconclusive != "" {
@@ -418,7 +499,21 @@ func TestVF_C11_Broker(t *testing.T) {
 					st.Class("listoffsets-v0-huge-max-num-offsets")
 				}
 			}
+			if c11PartitionCountDomain(p.Req, knownPartCount) {
+				if knownPartCount {
+					st.ExcludedCase(c11FindingPartitionCount)
+				} else {
+					st.Class("create-with-huge-partition-count")
+				}
+			}
 			counts, ids := c11PartitionCounts(store)
+			if c11AutoCreateIndexDomain(p.Req, counts, ids, knownAutoIdx) {
+				if knownAutoIdx {
+					st.ExcludedCase(c11FindingAutoCreateIdx)
+				} else {
+					st.Class("unknown-topic-with-huge-partition-index")
+				}
+			}
 			if c11TraceNilDomain(p.Req, h.traceKafka, ids, knownTrace) {
 				if knownTrace {
 					st.ExcludedCase(c11FindingTraceNil)
@@ -753,6 +848,89 @@ func TestVF_C11_WitnessTraceNil(t *testing.T) {
 		t.Fatalf("finding %s is not listed as known and reproduces: %s", c11FindingTraceNil, what)
 	}
 	st.NonTrivial("witness-trace", still)
+	st.Sample(map[string]any{"result": what})
+	t.Log(what)
+}
+
+// c11WitnessAlloc runs one request through a fresh real handler and reports the bytes allocated.
+func c11WitnessAlloc(key, version int16, req kmsg.Request) (allocated uint64, store *c11Store, out []byte, err error) {
+	store = &c11Store{InMemoryStore: metadata.NewInMemoryStore(c11Metadata()), limit: 3000}
+	h := newHandler(store, storage.NewMemoryS3Client(), protocol.MetadataBroker{NodeID: 1, Host: "127.0.0.1", Port: 19092}, testLogger())
+	defer h.coordinator.Stop()
+	sample := []metrics.Sample{{Name: "/gc/heap/allocs:bytes"}}
+	metrics.Read(sample)
+	before := sample[0].Value.Uint64()
+	cid := "vf-witness"
+	out, err = h.Handle(context.Background(), &protocol.RequestHeader{APIKey: key, APIVersion: version, CorrelationID: 5, ClientID: &cid}, req)
+	metrics.Read(sample)
+	return sample[0].Value.Uint64() - before, store, out, err
+}
+
+// TestVF_C11_WitnessPartitionCount: CreateTopics with a partition count no real topic has. The
+// real witness (2147483647 => 206 GB) cannot be replayed; 200000 shows the unbounded
+// allocation harmlessly.
+func TestVF_C11_WitnessPartitionCount(t *testing.T) {
+	st := vfkit.NewStats("C11", "witness-partcount")
+	defer st.Flush()
+	st.Eval()
+	log.SetOutput(io.Discard)
+	req := kmsg.NewPtrCreateTopicsRequest()
+	req.SetVersion(0)
+	ct := kmsg.NewCreateTopicsRequestTopic()
+	ct.Topic, ct.NumPartitions, ct.ReplicationFactor = "big", 200000, 1
+	req.Topics = append(req.Topics, ct)
+	req.TimeoutMillis = 1000
+	if !c11PartitionCountDomain(req, false) {
+		t.Fatalf("HARNESS BUG: the witness is outside the exclusion predicate")
+	}
+	allocated, store, out, err := c11WitnessAlloc(19, 0, req)
+	counts, _ := c11PartitionCounts(store)
+	still := counts["big"] == 200000 || allocated > 8<<20
+	what := fmt.Sprintf("CreateTopics v0 {big, num_partitions=200000} (%d-byte request): topic created with %d partitions, %d MiB allocated (reply %d bytes, err=%v)", len(req.AppendTo(nil)), counts["big"], allocated>>20, len(out), err)
+	if still {
+		what += " - no upper bound on the client's count: 2147483647 asks for 206 GB => fatal error: out of memory, no reply"
+	}
+	st.KnownResult(c11FindingPartitionCount, still, what)
+	if still && !vfkit.Known(c11FindingPartitionCount) {
+		t.Fatalf("finding %s is not listed as known and reproduces: %s", c11FindingPartitionCount, what)
+	}
+	st.NonTrivial("witness-partcount", still)
+	st.Sample(map[string]any{"result": what})
+	t.Log(what)
+}
+
+// TestVF_C11_WitnessAutoCreateIndex: Fetch v11 on a topic that does not exist, partition index 199999.
+func TestVF_C11_WitnessAutoCreateIndex(t *testing.T) {
+	st := vfkit.NewStats("C11", "witness-autoindex")
+	defer st.Flush()
+	st.Eval()
+	log.SetOutput(io.Discard)
+	req := kmsg.NewPtrFetchRequest()
+	req.SetVersion(11)
+	req.ReplicaID, req.MaxWaitMillis, req.MinBytes, req.MaxBytes = -1, 0, 0, 1<<20
+	ft := kmsg.NewFetchRequestTopic()
+	ft.Topic = "nosuchtopic"
+	fp := kmsg.NewFetchRequestTopicPartition()
+	fp.Partition, fp.FetchOffset, fp.PartitionMaxBytes = 199999, 0, 1<<20
+	ft.Partitions = append(ft.Partitions, fp)
+	req.Topics = append(req.Topics, ft)
+	pre := &c11Store{InMemoryStore: metadata.NewInMemoryStore(c11Metadata())}
+	counts0, ids0 := c11PartitionCounts(pre)
+	if !c11AutoCreateIndexDomain(req, counts0, ids0, false) {
+		t.Fatalf("HARNESS BUG: the witness is outside the exclusion predicate")
+	}
+	allocated, store, out, err := c11WitnessAlloc(1, 11, req)
+	counts, _ := c11PartitionCounts(store)
+	still := counts["nosuchtopic"] > 1000
+	what := fmt.Sprintf("Fetch v11 {nosuchtopic (does not exist), partition 199999}: topic auto-created with %d partitions, %d MiB allocated (reply %d bytes, err=%v)", counts["nosuchtopic"], allocated>>20, len(out), err)
+	if still {
+		what += " - ensureTopic creates index+1 partitions: index 2147483646 asks for 206 GB => fatal error: out of memory, no reply; needs no admin right"
+	}
+	st.KnownResult(c11FindingAutoCreateIdx, still, what)
+	if still && !vfkit.Known(c11FindingAutoCreateIdx) {
+		t.Fatalf("finding %s is not listed as known and reproduces: %s", c11FindingAutoCreateIdx, what)
+	}
+	st.NonTrivial("witness-autoindex", still)
 	st.Sample(map[string]any{"result": what})
 	t.Log(what)
 }
